@@ -68,8 +68,27 @@ def make_rf(rng, nt, amp):
     return crandn(rng, [nt]) * s
 
 
+_MUTATED = []
+
+
 def simulate(sim, rf, x, g, extra=None):
-    """Returns (a, b) as flat complex arrays."""
+    """Returns (a, b) as flat complex arrays; records in _MUTATED any argument array that the
+    simulator changed (a later simulation from the same arrays would see other data)."""
+    import sigpy.mri.rf as rfm
+    args = {"rf": rf, "x": x, "g": g}
+    if isinstance(extra, dict):
+        args.update({k_: v_ for k_, v_ in extra.items() if isinstance(v_, np.ndarray)})
+    keep = {k_: v_.copy() for k_, v_ in args.items() if isinstance(v_, np.ndarray)}
+    try:
+        return _simulate(sim, rf, x, g, extra)
+    finally:
+        for k_, v0 in keep.items():
+            if not np.array_equal(args[k_], v0, equal_nan=True):
+                _MUTATED.append("%s: argument %r" % (sim, k_))
+                args[k_][...] = v0       # undo, so that the remaining checks see the real data
+
+
+def _simulate(sim, rf, x, g, extra=None):
     import sigpy.mri.rf as rfm
     if sim == "abrm":
         a, b = rfm.sim.abrm(rf, x)
@@ -109,6 +128,15 @@ def compose(sim, ab1, ab2):
 
 
 def run_sim(case):
+    del _MUTATED[:]
+    r = _run_sim(case)
+    if _MUTATED and r.get("verdict") != "violated":
+        return violated(r.get("sig", "sim"), "a simulator modified an array passed to it (%s)" %
+                        "; ".join(sorted(set(_MUTATED))[:3]), dict(case), mech="sim-mutates")
+    return r
+
+
+def _run_sim(case):
     rng = np.random.default_rng(case["sseed"])
     sim, nt, amp = case["sim"], case["nt"], case["amp"]
     sig = "|".join(map(str, ["sim", sim, "nt%d" % nt, amp, case["nd"]]))
